@@ -3,6 +3,6 @@ SPECIFICATION Spec
 CONSTANTS MaxN = 5
           Ks = {1, 2, 3, 5}
           MaxW = 4
-INVARIANTS AnswersLikeFullIndex AnswersAcceptable NeverOverAnswers
+INVARIANTS AnswersLikeFullIndex AnswersAcceptable NeverOverAnswers LabelValuesComplete
 PROPERTY Terminates
 CHECK_DEADLOCK FALSE
